@@ -43,7 +43,15 @@ def defs(func):
         elif isinstance(n, ast.comprehension):
             for name in _bind_names(n.target):
                 out.setdefault(name, []).append((n, n.iter))
+    for lst in out.values():
+        lst.sort(key=lambda p: (getattr(p[0], 'lineno', 0), getattr(p[0], 'col_offset', 0)))
     return out
+
+
+def last_def_before(func, name, node):
+    '''The textually last definition of `name` above `node` (exact for straight-line code).'''
+    cands = [(st, rhs) for st, rhs in defs(func).get(name, []) if getattr(st, 'lineno', 0) < node.lineno]
+    return cands[-1] if cands else None
 
 
 def names_loaded(expr):
